@@ -214,6 +214,15 @@ def subdivided_range(c, atom, max_depth=10):
                 r1, r2 = go(l, m_, depth + 1), go(m_, h, depth + 1)
                 return (min(r1[0], r2[0]), max(r1[1], r2[1]), r1[2] or r2[2])
             return r
+        # a kernel that is non-finite at a point stays non-finite under subdivision: probe a few points first
+        probe_bad = False
+        for pt in (lo, hi, (lo + hi) / 2, lo + (hi - lo) / 3):
+            if _bad(FR.frange(n, None, lambda m, pt=pt: (pt, pt, False) if m is a else atom(m))):
+                probe_bad = True; break
+        if probe_bad:
+            seeded[nid] = FR.TOP
+            continue
+        budget = [120]
         # start from 8 pieces
         res = [go(lo + (hi - lo) * i / 8, lo + (hi - lo) * (i + 1) / 8, 0) for i in range(8)]
         seeded[nid] = (min(r[0] for r in res), max(r[1] for r in res), any(r[2] for r in res))
